@@ -11,6 +11,7 @@ import (
 	"net/http"
 	"net/http/httptest"
 	"sync"
+	"sync/atomic"
 	"fmt"
 	"io"
 	golog "log"
@@ -440,6 +441,149 @@ func TestVerifC11Station(t *testing.T) {
 			}
 		}
 		res[i] = o
+	}
+	vWriteOut(t, res)
+}
+
+// ---------------------------------------------------------------- concurrent lane
+// Runs as its own `go test` process (a child of the check): ZMQ ingest of registrations that all land on one
+// phantom (registrar-supplied ipv4 override), concurrently with first-flight bytes handed to every wrapping
+// transport's WrapConnection for that phantom and with the sweeper.  Nothing is recovered here: a runtime
+// fatal error ("concurrent map iteration and map write"), a panic in any goroutine or a deadlock ends the
+// process, and that is the observation.
+
+type concCase struct {
+	Templates  []string `json:"templates"` // hex C2SWrapper messages whose 32-byte shared secret sits at bytes [2:34]
+	Phantom    string   `json:"phantom"`
+	DurationMs int      `json:"duration_ms"`
+	Workers    int      `json:"workers"`
+}
+
+type concObs struct {
+	Ingested  int64 `json:"ingested"`
+	Announced int64 `json:"announced"`
+	Wraps     int64 `json:"wraps"`
+	Sweeps    int64 `json:"sweeps"`
+	Done      bool  `json:"done"`
+}
+
+func TestVerifC11StationConc(t *testing.T) {
+	var cases []concCase
+	if !vReadCases(t, &cases) {
+		return
+	}
+	golog.SetOutput(io.Discard)
+	os.Setenv("PHANTOM_SUBNET_LOCATION", "./test/phantom_subnets.toml")
+	pfx, err := prefix.Default([][32]byte{{1, 2, 3}})
+	if err != nil {
+		t.Fatal(err)
+	}
+	res := make([]concObs, len(cases))
+	for ci, c := range cases {
+		rm := NewRegistrationManager(&RegConfig{EnableIPv4: true, EnableIPv6: true})
+		if rm == nil {
+			t.Fatal("no registration manager")
+		}
+		rm.Logger.SetOutput(io.Discard)
+		rm.GeoIP = &verifGeo{}
+		rm.LivenessTester = &verifLive{}
+		for _, id := range []int32{1, 2, 3, 4} {
+			if err := rm.AddTransport(pb.TransportType(id), stTransport(id, pfx)); err != nil {
+				t.Fatal(err)
+			}
+		}
+		var announced, ingested, wraps, sweeps int64
+		rm.registeredDecoys.registerForDetector = func(d *DecoyRegistration) { atomic.AddInt64(&announced, 1) }
+		rm.registeredDecoys.updateInDetector = func(d *DecoyRegistration) {}
+		phantom := net.IP(vUnhex(c.Phantom))
+		var templates [][]byte
+		for _, h := range c.Templates {
+			templates = append(templates, vUnhex(h))
+		}
+		stop := make(chan struct{})
+		var wg sync.WaitGroup
+		var ctr uint64
+		// ingest workers: the loop of startIngestThread on fresh registrations
+		for w := 0; w < c.Workers; w++ {
+			wg.Add(1)
+			go func() {
+				defer wg.Done()
+				for {
+					select {
+					case <-stop:
+						return
+					default:
+					}
+					n := atomic.AddUint64(&ctr, 1)
+					msg := append([]byte(nil), templates[int(n)%len(templates)]...)
+					for k := 0; k < 8; k++ { // a fresh shared secret per message
+						msg[2+k] = byte(n >> (8 * k))
+					}
+					regs, err := rm.parseRegMessage(msg)
+					if err != nil {
+						continue
+					}
+					for _, r := range regs {
+						if r != nil {
+							rm.ingestRegistration(r)
+							atomic.AddInt64(&ingested, 1)
+						}
+					}
+				}
+			}()
+		}
+		// connections to the phantom: every wrapping transport looks at the first flight
+		for _, wt := range rm.GetWrappingTransports() {
+			for k := 0; k < 2; k++ {
+				wg.Add(1)
+				go func(wt WrappingTransport, k int) {
+					defer wg.Done()
+					sizes := []int{32, 64, 70, 141, 300, 8192}
+					i := 0
+					for {
+						select {
+						case <-stop:
+							return
+						default:
+						}
+						i++
+						n := sizes[(i+k)%len(sizes)]
+						data := make([]byte, n)
+						for j := range data {
+							data[j] = byte(i*131 + j*7)
+						}
+						_, _, _ = wt.WrapConnection(bytes.NewBuffer(data[:n:n]), nil, phantom, rm)
+						atomic.AddInt64(&wraps, 1)
+					}
+				}(wt, k)
+			}
+		}
+		// the sweeper
+		wg.Add(1)
+		go func() {
+			defer wg.Done()
+			for {
+				select {
+				case <-stop:
+					return
+				default:
+				}
+				rm.RemoveOldRegistrations()
+				atomic.AddInt64(&sweeps, 1)
+				time.Sleep(2 * time.Millisecond)
+			}
+		}()
+		time.Sleep(time.Duration(c.DurationMs) * time.Millisecond)
+		close(stop)
+		fin := make(chan struct{})
+		go func() { wg.Wait(); close(fin) }()
+		select {
+		case <-fin:
+			res[ci].Done = true
+		case <-time.After(20 * time.Second): // somebody is stuck on a lock
+		}
+		res[ci].Ingested, res[ci].Announced = atomic.LoadInt64(&ingested), atomic.LoadInt64(&announced)
+		res[ci].Wraps, res[ci].Sweeps = atomic.LoadInt64(&wraps), atomic.LoadInt64(&sweeps)
 	}
 	vWriteOut(t, res)
 }
